@@ -788,6 +788,81 @@ func c06Numbers(c *fw.Ctx, idx int) {
 
 func c06RawReplay(c *fw.Ctx, raw []byte) { c06Check(c, string(raw), "replay", "") }
 
+// c06AfterRejection: a text that is rejected part-way (a member of another
+// dimensionality, a truncated member, a one-point line) inside 1..14 nested
+// collections of each dimensionality, and right after it valid texts of the same
+// and of other depths: a parse starts from nothing, whatever the parse before it
+// left behind.
+func c06AfterRejection(c *fw.Ctx, idx int) {
+	r := c.R
+	sufs := []string{"", " Z", " M", " ZM"}
+	pts := []string{"1 2", "1 2 3", "1 2 3", "1 2 3 4"}
+	d := 1 + idx%14
+	k := (idx / 14) % 4
+	open := strings.Repeat("GEOMETRYCOLLECTION"+sufs[k]+" (", d)
+	closeAll := strings.Repeat(")", d)
+	other := (k + 1 + r.Intn(3)) % 4
+	bads := []string{
+		open + "POINT" + sufs[k] + " (" + pts[k] + "), POINT" + sufs[other] + " (" + pts[other] + ")" + closeAll,
+		open + "POINT" + sufs[k] + " (" + pts[k] + "), LINESTRING" + sufs[k] + " (" + pts[k] + ")" + closeAll,
+		open + "POINT" + sufs[k] + " (" + pts[k] + "), POINT" + sufs[k] + " (" + pts[k],
+		open + "LINESTRING" + sufs[k] + " (" + pts[k] + ", " + pts[k] + "), POLYGON" + sufs[k] + " ((" + pts[k] + ", " + pts[k] + "))" + closeAll,
+	}
+	bad := bads[r.Intn(len(bads))]
+	c.SetInput(map[string]any{"rejected_first": clipStr(bad, 400)})
+	var err error
+	if c.Guard("panic", func() { _, err = wkt.Unmarshal(bad) }) {
+		return
+	}
+	c.Eval(1)
+	if err == nil {
+		c.Fail("accepted-inconsistent", "an inconsistent text was accepted: %s", clipStr(bad, 300))
+		return
+	}
+	c.Guard("error-message-panic", func() { _ = err.Error() })
+	for _, d2 := range []int{d, d + 1, 1 + r.Intn(14), 9} {
+		for k2 := 0; k2 < 4; k2++ {
+			good := strings.Repeat("GEOMETRYCOLLECTION"+sufs[k2]+" (", d2) + "POINT" + sufs[k2] + " (" + pts[k2] + "), POINT" + sufs[k2] + " EMPTY, LINESTRING" + sufs[k2] + " (" + pts[k2] + ", " + pts[k2] + ")" + strings.Repeat(")", d2)
+			c.SetInput(map[string]any{"rejected_first": clipStr(bad, 300), "then": clipStr(good, 400)})
+			var t geom.T
+			if c.Guard("panic", func() { t, err = wkt.Unmarshal(good) }) {
+				return
+			}
+			c.Eval(1)
+			c.Count("valid_texts_parsed_right_after_a_rejection")
+			if err != nil {
+				c.Fail("rejected-valid", "right after a rejected text, a valid text (3 members inside %d collections, dimensionality%q) is rejected: %v", d2, sufs[k2], err)
+				return
+			}
+			depth := 0
+			x := t
+			for {
+				gc, ok := x.(*geom.GeometryCollection)
+				if !ok || gc.NumGeoms() == 0 {
+					break
+				}
+				depth++
+				if gc.NumGeoms() == 3 {
+					p0, ok0 := gc.Geom(0).(*geom.Point)
+					p1, ok1 := gc.Geom(1).(*geom.Point)
+					l2, ok2 := gc.Geom(2).(*geom.LineString)
+					if !ok0 || !ok1 || !ok2 || len(p0.FlatCoords()) != len(strings.Fields(pts[k2])) || !p1.Empty() || l2.NumCoords() != 2 || p0.Layout() != l2.Layout() || p0.Layout().Stride() != len(strings.Fields(pts[k2])) {
+						c.Fail("inconsistent-geometry", "right after a rejected text the members of %s parse as %v %v %v", clipStr(good, 120), gc.Geom(0), gc.Geom(1), gc.Geom(2))
+						return
+					}
+					break
+				}
+				x = gc.Geom(0)
+			}
+			if depth != d2 {
+				c.Fail("inconsistent-geometry", "right after a rejected text, a text nesting %d collections parses to depth %d", d2, depth)
+				return
+			}
+		}
+	}
+	c.Distinct(fmt.Sprintf("after-rejection/%d/%d", d, k))
+}
+
 func init() {
 	n := len(c06Tokens)
 	fw.Register(&fw.Monitor{
@@ -805,6 +880,7 @@ func init() {
 			{Name: "one-defect", Quick: 40000, Thorough: 2000000, Run: c06MustReject},
 			{Name: "number-literals", Quick: 60000, Thorough: 3000000, Run: c06Numbers},
 			{Name: "mutations", Quick: 100000, Thorough: 8000000, Run: c06Mutate, RawReplay: c06RawReplay},
+			{Name: "after-a-rejection", Quick: 2240, Thorough: 56000, Run: c06AfterRejection},
 		},
 		Extra: fuzzExtra("C06", 3000000),
 		Require: []string{"accepted", "rejected", "class_grammar", "class_one-defect", "class_mutation", "class_raw-bytes", "class_splice",
